@@ -271,25 +271,34 @@ Qed.
 Lemma peers_others s s1 q : peers s1 = peers s -> find_peer s1 q = find_peer s q.
 Proof. unfold find_peer. intros ->. reflexivity. Qed.
 
-Lemma remove_entities_others l : forall s p s' evs err, remove_entities s p l = (s', evs, err) ->
+Lemma remove_entity_others s p a s' evs : remove_entity s p a = (s', evs) ->
   forall q, q <> p -> find_peer s' q = find_peer s q.
 Proof.
-  induction l as [|de r IH]; intros s p s' evs err H q Hq.
+  intros H q Hq. rewrite remove_entity_unfold in H.
+  destruct (find_peer s p) as [pe|] eqn:Ep; [|inversion H; subst; reflexivity].
+  destruct (find_rent pe a) as [en|]; [|inversion H; subst; reflexivity].
+  cbv zeta in H.
+  set (pe1 := {| p_ski := p_ski pe; p_addr := p_addr pe;
+                 p_ents := filter (fun x => negb (eqb_eaddr (re_addr x) a)) (p_ents pe) |}) in *.
+  pose proof (remove_for_entity_spec (set_peer s pe1) pe1 en) as Hr.
+  destruct (remove_for_entity (set_peer s pe1) pe1 en) as [s2 evs1].
+  destruct Hr as [_ [Hp2 _]].
+  destruct (clean_entity_caches_frame s2 (p_addr pe) a) as [_ Hp3].
+  injection H as H1 H2. subst s' evs.
+  rewrite (peers_others _ _ q Hp3), (peers_others _ _ q Hp2).
+  apply set_peer_others. simpl. rewrite (find_peer_ski _ _ _ Ep). exact Hq.
+Qed.
+
+Lemma remove_unlisted_others listed es : forall s p s' evs, remove_unlisted s p listed es = (s', evs) ->
+  forall q, q <> p -> find_peer s' q = find_peer s q.
+Proof.
+  induction es as [|a r IH]; intros s p s' evs H q Hq.
   - simpl in H. inversion H; subst. reflexivity.
-  - rewrite remove_entities_cons in H. destruct (find_peer s p) as [pe|] eqn:Ep; [|inversion H; subst; reflexivity].
-    destruct (check_entity pe de); cbn [negb] in H; [|inversion H; subst; reflexivity].
-    destruct (find_rent pe (de_addr de)) as [en|] eqn:Een; [|exact (IH _ _ _ _ _ H q Hq)].
-    cbv zeta in H.
-    set (pe1 := {| p_ski := p_ski pe; p_addr := p_addr pe;
-                   p_ents := filter (fun x => negb (eqb_eaddr (re_addr x) (de_addr de))) (p_ents pe) |}) in *.
-    pose proof (remove_for_entity_spec (set_peer s pe1) pe1 en) as Hr.
-    destruct (remove_for_entity (set_peer s pe1) pe1 en) as [s2 evs1].
-    destruct Hr as [_ [Hp2 _]].
-    destruct (clean_entity_caches_frame s2 en) as [_ Hp3].
-    destruct (remove_entities (clean_entity_caches s2 en) p r) as [[s4 evs2] err2] eqn:Er.
-    injection H as H1 H2 H3. subst s' evs err.
-    rewrite (IH _ _ _ _ _ Er q Hq), (peers_others _ _ q Hp3), (peers_others _ _ q Hp2).
-    apply set_peer_others. simpl. rewrite (find_peer_ski _ _ _ Ep). exact Hq.
+  - simpl in H. destruct (existsb (eqb_eaddr a) listed || eqb_eaddr a [0%N]); [exact (IH _ _ _ _ H q Hq)|].
+    destruct (remove_entity s p a) as [s1 evs1] eqn:E1.
+    destruct (remove_unlisted s1 p listed r) as [s2 evs2] eqn:E2.
+    injection H as H1 H2. subst s' evs.
+    rewrite (IH _ _ _ _ E2 q Hq). exact (remove_entity_others _ _ _ _ _ E1 q Hq).
 Qed.
 
 Lemma notify_entries_others l : forall s p m s' evs err, notify_entries s p m l = (s', evs, err) ->
@@ -299,22 +308,18 @@ Proof.
   - simpl in H. inversion H; subst. reflexivity.
   - rewrite notify_entries_cons in H. destruct (de_state de) as [[|]|]; [| |inversion H; subst; reflexivity].
     + destruct (find_peer s p) as [pe|] eqn:Ep; [|inversion H; subst; reflexivity].
-      destruct (all_checked pe (dm_ents m)); cbn [negb] in H.
-      * pose proof (add_entities_ski pe m (dm_ents m)) as Hski.
-        destruct (add_entities pe m (dm_ents m)) as [pe1 created]. simpl fst in Hski. cbv zeta in H.
-        destruct (notify_entries (set_peer s pe1) p m r) as [[s2 evs2] err2] eqn:Er.
-        injection H as H1 H2 H3. subst s' evs err.
-        rewrite (IH _ _ _ _ _ _ Er q Hq). apply set_peer_others. rewrite Hski, (find_peer_ski _ _ _ Ep). exact Hq.
-      * cbv zeta in H.
-        match type of H with context [add_entities pe m ?ok] =>
-          pose proof (add_entities_ski pe m ok) as Hski; destruct (add_entities pe m ok) as [pe1 cr] end.
-        simpl fst in Hski. inversion H; subst. apply set_peer_others. rewrite Hski, (find_peer_ski _ _ _ Ep). exact Hq.
-    + destruct (remove_entities s p (dm_ents m)) as [[s1 evs1] err1] eqn:Er1.
-      pose proof (remove_entities_others _ _ _ _ _ _ Er1 q Hq) as Ha1.
-      destruct err1; [inversion H; subst; exact Ha1|].
+      destruct (check_entity pe de); cbn [negb] in H; [|inversion H; subst; reflexivity].
+      pose proof (add_entities_ski pe m [de]) as Hski.
+      destruct (add_entities pe m [de]) as [pe1 created]. simpl fst in Hski.
+      destruct (notify_entries (set_peer s pe1) p m r) as [[s2 evs2] err2] eqn:Er.
+      injection H as H1 H2 H3. subst s' evs err.
+      rewrite (IH _ _ _ _ _ _ Er q Hq). apply set_peer_others. rewrite Hski, (find_peer_ski _ _ _ Ep). exact Hq.
+    + destruct (find_peer s p) as [pe|] eqn:Ep; [|inversion H; subst; reflexivity].
+      destruct (check_removed pe de); cbn [negb] in H; [|inversion H; subst; reflexivity].
+      destruct (remove_entity s p (de_addr de)) as [s1 evs1] eqn:E1.
       destruct (notify_entries s1 p m r) as [[s2 evs2] err2] eqn:Er.
       injection H as H1 H2 H3. subst s' evs err.
-      rewrite (IH _ _ _ _ _ _ Er q Hq). exact Ha1.
+      rewrite (IH _ _ _ _ _ _ Er q Hq). exact (remove_entity_others _ _ _ _ _ E1 q Hq).
 Qed.
 
 (* a discovery notification of peer p removes exactly the entries of (p, e) for the entities e it
@@ -347,4 +352,56 @@ Proof.
   destruct H as [[H1 H2 H3 H4] Hother].
   split; [exact H1|]. split; [exact H3|]. split; [exact H2|]. split; [exact H4|].
   intros q Hq. unfold view. rewrite H1, H3, (Hother q Hq), !entries_of_drop by exact Hq. reflexivity.
+Qed.
+
+(* ================================================================ explicit corollary: a discovery reply that no longer lists entities *)
+Lemma handle_device_added_others s1 p pe pe1 l0 q :
+  p_ski pe1 = p -> q <> p -> find_peer (handle_device_added s1 p pe pe1 l0) q = find_peer s1 q.
+Proof.
+  intros Hski Hq. unfold handle_device_added.
+  set (s1a := if reply_completes pe pe1 then _ else s1).
+  assert (H1a : find_peer s1a q = find_peer s1 q).
+  { unfold s1a. destruct (reply_completes pe pe1); [|reflexivity]. destruct l0; [reflexivity|].
+    rewrite set_peer_others; [reflexivity | simpl; rewrite Hski; exact Hq]. }
+  destruct (match remote_feature pe (nm_addr None) with Some (_, rf) => rf_dev rf | None => None end) as [d0|].
+  - destruct (peer_by_addr s1a d0); exact H1a.
+  - destruct (p_addr pe1) as [d1|]; [|exact H1a]. destruct (peer_by_addr s1a d1); exact H1a.
+Qed.
+
+Lemma entries_of_completed s p m q l : q <> p -> entries_of q (completed s p m l) = entries_of q l.
+Proof.
+  intros Hq. unfold completed. destruct (model_completion s p m) as [d|]; [|reflexivity].
+  unfold entries_of, complete_nm_addr. induction l as [|x l IH]; simpl; [reflexivity|].
+  destruct (complete_one_props p (Some d) x) as [_ [Hk _]]. rewrite Hk.
+  destruct (N.eqb_spec (e_ski x) q) as [E|E]; [|exact IH].
+  rewrite IH. f_equal. unfold complete_one.
+  destruct (N.eqb_spec (e_ski x) p) as [E2|E2]; [congruence | reflexivity].
+Qed.
+
+(* a discovery reply of peer p removes exactly the entries of (p, e) for the entities e it no longer
+   lists (reported by entity-removed events), completes the client address of p's entries made
+   through its address-less node-management feature, and leaves every other peer alone *)
+Theorem reply_teardown_exact ops p m :
+  let s := fst (run init ops) in
+  let s' := fst (step s (DiscoveryReply p m)) in
+  let gone := gone_of (snd (step s (DiscoveryReply p m))) in
+  subs s' = filter (fun x => negb (N.eqb (e_ski x) p && existsb (eqb_eaddr (fa_ent (e_cli x))) gone)) (completed s p m (subs s)) /\
+  binds s' = filter (fun x => negb (N.eqb (e_ski x) p && existsb (eqb_eaddr (fa_ent (e_cli x))) gone)) (completed s p m (binds s)) /\
+  next_sub s' = next_sub s /\ next_bind s' = next_bind s /\
+  forall q, q <> p -> view s' q = view s q.
+Proof.
+  intros s s' gone. pose proof (reachable_regok ops) as Hok. fold s in Hok.
+  destruct (reply_step_spec s p m Hok) as [_ [Hs [Hb [Hn [Hnb _]]]]]. fold s' in Hs, Hb, Hn, Hnb. fold gone in Hs, Hb.
+  split; [exact Hs|]. split; [exact Hb|]. split; [exact Hn|]. split; [exact Hnb|].
+  intros q Hq. unfold view. rewrite Hs, Hb, !entries_of_drop, !entries_of_completed by exact Hq.
+  f_equal. f_equal. unfold s'. cbn [step]. unfold with_source.
+  destruct (find_peer s p) as [pe|] eqn:Ep; [|reflexivity].
+  destruct (remote_feature pe (nm_addr None)); [|reflexivity].
+  set (pe0 := {| p_ski := p_ski pe; p_addr := match dm_dev m with Some d => Some d | None => p_addr pe end; p_ents := p_ents pe |}).
+  pose proof (add_entities_ski pe0 m (dm_ents m)) as Hski.
+  destruct (add_entities pe0 m (dm_ents m)) as [pe1 created]. simpl fst in Hski.
+  assert (Hski1 : p_ski pe1 = p) by (rewrite Hski; simpl; exact (find_peer_ski _ _ _ Ep)).
+  destruct (remove_unlisted _ p (map de_addr (dm_ents m)) (map re_addr (p_ents pe1))) as [s3 evs] eqn:Eu. cbn [fst].
+  rewrite (remove_unlisted_others _ _ _ _ _ _ Eu q Hq), (handle_device_added_others _ _ _ _ _ q Hski1 Hq).
+  apply set_peer_others. rewrite Hski1. exact Hq.
 Qed.
